@@ -98,6 +98,28 @@ def _reduce_frames(tb):
     return hit
 
 
+def _furax_frame(tb):
+    """'file:function' of the innermost traceback frame that lies in the furax sources (None if there is none)."""
+    hit = None
+    while tb is not None:
+        code = tb.tb_frame.f_code
+        fn = code.co_filename.replace(os.sep, '/')
+        if '/furax/' in fn and '/fxv/' not in fn and '/site-packages/' not in fn:
+            hit = f'{fn.split("/furax/")[-1]}:{code.co_name}'
+        tb = tb.tb_next
+    return hit
+
+
+def _replay_raises(mod, key, expected):
+    try:
+        mod.run_case(key)
+    except BaseException as ex:  # noqa: BLE001
+        where = _furax_frame(ex.__traceback__)
+        same = where is not None and f'raises:{type(ex).__name__}:{where}' == expected
+        return same, f'{type(ex).__name__}: {str(ex)[:160]} raised again in {where}'
+    return False, 'the case completed on replay'
+
+
 def _replay_nonterm(mod, key, limit):
     signal.signal(signal.SIGALRM, _alarm)
     signal.alarm(int(limit))
@@ -137,8 +159,15 @@ def _work(job):
         if name in ('Unsupported', 'OutOfBounds', 'NonFinite'):
             res = inconclusive(f'{name}: {ex}')
         else:
-            res = dict(status='error', why=f'{name}: {ex}', tb=traceback.format_exc()[-2000:],
-                       obligations=1, discharged=0, nontrivial=False, solver_s=0.0)
+            where = _furax_frame(ex.__traceback__)
+            if where and not isinstance(ex, (KeyboardInterrupt, SystemExit, MemoryError)):
+                # the real library raised while a check was exercising it: violation candidate, replayed by re-running the case
+                res = violation(f'the library raises {name}: {str(ex)[:200]} (in {where}) while the check applies the operator',
+                                signature=f'raises:{name}:{where}', kind='raises-in-furax')
+                res['tb'] = traceback.format_exc()[-1500:]
+            else:
+                res = dict(status='error', why=f'{name}: {ex}', tb=traceback.format_exc()[-2000:],
+                           obligations=1, discharged=0, nontrivial=False, solver_s=0.0)
     res['key'] = key
     res['wall_s'] = time.time() - t0
     return res
@@ -290,6 +319,8 @@ def finish(mod, tier, seed, results, twin_res, not_reached, t0):
             limit = getattr(mod, 'CASE_TIMEOUT', {}).get(tier, 60 if tier == 'quick' else 300)
             if r.get('kind') == 'nonterm':
                 reproduced, msg = _replay_nonterm(mod, r['key'], min(limit, 30))
+            elif r.get('kind') == 'raises-in-furax':
+                reproduced, msg = _replay_raises(mod, r['key'], r.get('signature'))
             else:
                 signal.signal(signal.SIGALRM, _alarm)
                 signal.alarm(int(limit))
@@ -435,6 +466,8 @@ def do_replay(mod, path):
     import fxv.env  # noqa: F401
     if rec.get('kind') == 'nonterm':
         reproduced, msg = _replay_nonterm(mod, key, 30)
+    elif rec.get('kind') == 'raises-in-furax':
+        reproduced, msg = _replay_raises(mod, key, rec.get('signature'))
     else:
         reproduced, msg = mod.replay(key, rec.get('model', {}), rec)
     print(('REPRODUCED: ' if reproduced else 'not reproduced: ') + msg)
